@@ -1,6 +1,5 @@
-import Props.C08
 import Props.C09
-open DV.C08
-#print axioms snake_multiwire
-#print axioms cups_spec
-#print axioms DV.C09.functor_eval_eq_layers
+open DV.C09
+#print axioms eval_invariant_interchange
+#print axioms eval_invariant_normal_form
+#print axioms tensor_layer_exchange
